@@ -28,6 +28,12 @@ ENGINES.append({"name": "H5-props", "path": "harness/props_harness.cpp + engines
                 "kind_free_text": "real props/storage.c driven by random API histories against a C++ value model; "
                                   "malloc/realloc/free of the code under test interposed at link time; ASan+UBSan; memcheck in thorough"})
 
+ENGINES.append({"name": "H6-storage", "path": "harness/sto_harness.cpp + lib/bigtiff.py + engines/sto.py",
+                "serves_properties": ["C14", "C15", "C16"],
+                "kind_free_text": "real raw/tiff/tiff-json/trash devices driven through the HAL; open/pwrite/close/flock of "
+                                  "platform.c interposed at link time (descriptor ledger, short writes, injected faults); "
+                                  "independent BigTIFF reader in Python; one child process per fault"})
+
 CHECKS = {
     "C01": dict(
         engine="H1-channel", technique="runtime monitoring: reference-model oracle over controlled interleavings + sanitizer stress",
@@ -73,6 +79,31 @@ CHECKS = {
              "exactly-once release per history; ASan catches over-reads of exact-size unterminated inputs and "
              "use-after-free; memcheck (thorough) looks for uninitialised reads.",
         note="trusts the ~60-line value model; no allocation-failure injection; copy onto itself is outside the quantifier"),
+    "C14": dict(
+        engine="H6-storage", technique="runtime monitoring: byte-exact file oracle under injected short writes (interposed pwrite)",
+        level="exploration", design_ref="DESIGN.md section 4 / H6 / C14",
+        text="10^5 cycles of set/start/append*/stop on real raw devices with random frame sizes, packet groupings, URI "
+             "spellings, repeated cycles per device and random short writes injected below file_write; the resulting "
+             "file must equal the concatenation of the appended packets byte for byte.",
+        note="fresh path per cycle; real filesystem of the sandbox; write errors are C16's"),
+    "C15": dict(
+        engine="H6-storage", technique="runtime monitoring: independent BigTIFF reader as offline oracle over generated acquisitions",
+        level="exploration", design_ref="DESIGN.md section 4 / H6 / C15",
+        text="Every file produced by tiff and tiff-json over thousands of generated acquisitions (all sample types, "
+             "N=1..40, packet groupings, metadata variants incl. change-to-empty, pixel scales, URI spellings, repeated "
+             "cycles, short writes) is parsed by a reader written from the BigTIFF layout: header, exact chain length, "
+             "zero terminator, bounds, pairwise disjoint structures, per-frame shape/format, strip bytes, description "
+             "JSON ids/timestamps, user metadata placement.",
+        note="trusts lib/bigtiff.py (~150 lines) and Python's json; tag order is not required (the property does not state it)"),
+    "C16": dict(
+        engine="H6-storage", technique="runtime monitoring: fault enumeration over every OS-level open/pwrite index x failure mode, one process per fault, descriptor ledger",
+        level="fault_enumeration", design_ref="DESIGN.md section 4 / H6 / C16",
+        text="All (kind x life-cycle template x open/pwrite call index x mode) combinations are executed, each in its own "
+             "process with a 1 MiB stack and a watchdog: crash, sanitizer report, runaway recursion or repeated hang is a "
+             "violation; the device must not be Running at the end of an append in which a write failed; every "
+             "pwrite/flock/close must target a descriptor the device opened and has not closed, and none may stay open "
+             "after close. Exhaustive over the enumerated templates only.",
+        note="single-fault and persistent-fault modes at pwrite/open; close/fsync errors not injected; 8 templates"),
 }
 
 PENDING_REASON = "check not built yet in this round (planned in DESIGN.md section 4; will be claimed once its harness exists)"
